@@ -180,6 +180,9 @@ func Main(args []string) error {
 				if t < 0 {
 					t = 0
 				}
+				if t > 1_900_000_000 { // times are logged in ms and must stay below 2^31 (TLC integers)
+					break
+				}
 				a := addrs[rng.Intn(nAddr)]
 				il.Inc(rec.start.Add(time.Duration(t)*time.Millisecond), a.ip)
 				if i < 40 {
